@@ -1,4 +1,4 @@
--- GENERATED from /work/g5-repo by /verif/extract (gvx) on every run: do not edit
+-- GENERATED from /repo by /verif/extract (gvx) on every run: do not edit
 namespace GV.Gen.TxSubLimits
 def maxRequestCount : Nat := 65535 -- protocol/txsubmission.MaxRequestCount
 def maxAckCount : Nat := 65535 -- protocol/txsubmission.MaxAckCount
